@@ -281,7 +281,7 @@ def tree_model_check(cases):
     """cases: [(scenario, used schedule, statuses, dump)] -> indices on which tt_sched_agrees is false"""
     from harness import coqrun
     import tempfile
-    workdir = tempfile.mkdtemp(prefix='pvtree', dir='/dev/shm')
+    workdir = tempfile.mkdtemp(prefix='pvtree', dir='/dev/shm' if os.path.isdir('/dev/shm') else None)
     path = os.path.join(workdir, 'tree_cases.v')
     with open(path, 'w') as f:
         f.write('From PV Require Import Model.ConcTree.\nDefinition cf := mkCfg 0 0.\n')
